@@ -959,7 +959,7 @@ func main() {
 	rng := rand.New(rand.NewSource(*seed))
 	nLean, nOwn, nOpt := 60, 400, 3
 	if *tier == "thorough" {
-		nLean, nOwn, nOpt = 1500, 6000, 32
+		nLean, nOwn, nOpt = 500, 4000, 8
 	}
 	pickOpts := func() []int {
 		if nOpt >= 32 {
